@@ -29,6 +29,7 @@ SPACES = {
         dict(nv=3, maxl=2, classes=ALL6),
         dict(nv=2, maxl=3, minl=3, classes=("D", "U", "O")),
         dict(nv=2, maxl=5, minl=4, classes=("D",)),          # many links on one vertex
+        dict(nv=3, maxl=2, classes=("D", "U", "O"), twin=True),   # the last vertex carries the first one's uid
     ],
     "thorough": [
         dict(nv=3, maxl=3, classes=("D", "U", "Ds", "O")),
